@@ -295,11 +295,10 @@ class Textgrid:
                 f"EraseRegion error: start time ({start}) must occur before end time ({end})"
             )
 
-        diff = end - start
-
         maxTimestamp = self.maxTimestamp
         if doShrink is True:
-            maxTimestamp -= diff
+            # Same arithmetic as the tiers use, so tier and textgrid spans agree
+            maxTimestamp = start + (maxTimestamp - end)
 
         newTG = Textgrid(self.minTimestamp, self.maxTimestamp)
         for tier in self.tiers:
